@@ -28,7 +28,7 @@ TS = c02.TS
 SCOPE = c02.SCOPE
 AKID = c02.AKID
 
-CASES = ['authz-header', 'authz-foreign', 'authz-basic', 'cred-in-header', 'sig-in-header', 'signedheaders-in-header', 'q-credential', 'q-signature', 'q-date', 'q-signedheaders',
+CASES = ['authz-header', 'authz-foreign', 'authz-basic', 'cred-in-header', 'sig-in-header', 'sig-in-header-gap', 'cred-in-header-gap', 'signedheaders-in-header', 'q-credential', 'q-signature', 'q-date', 'q-signedheaders',
          'q-token', 'fold-signature', 'fold-credential', 'x-amz-date-twice', 'x-amz-date-vs-date', 'x-amz-date-blank', 'x-amz-date-spaces', 'date-twice', 'token-header', 'both-carriers', 'both-carriers-otheralg', 'both-carriers-emptyalg']
 
 
@@ -91,7 +91,7 @@ def run_shape(prog, shape, tier, seed, res):
         tok = conc_bytes('TOK')
         first = lambda a, b: (a, b) if want_ok else (b, a)      # (selected-by-"first" rule, other)
         last = lambda a, b: (b, a) if want_ok else (a, b)       # order on the wire when the LAST one is selected
-        if case in ('authz-header', 'authz-foreign', 'authz-basic', 'cred-in-header', 'sig-in-header', 'signedheaders-in-header', 'x-amz-date-twice', 'x-amz-date-vs-date',
+        if case in ('authz-header', 'authz-foreign', 'authz-basic', 'cred-in-header', 'sig-in-header', 'sig-in-header-gap', 'cred-in-header-gap', 'signedheaders-in-header', 'x-amz-date-twice', 'x-amz-date-vs-date',
                     'x-amz-date-blank', 'x-amz-date-spaces',
                     'date-twice', 'token-header', 'both-carriers', 'both-carriers-otheralg', 'both-carriers-emptyalg'):
             # ---- header carrier
@@ -160,6 +160,18 @@ def run_shape(prog, shape, tier, seed, res):
                 w1, w2 = last(cred, dc)
                 headers.append(('authorization', conc_bytes('AWS4-HMAC-SHA256 Credential=') + w1 + conc_bytes(', Credential=') + w2 +
                                 conc_bytes(', SignedHeaders=' + ';'.join(signed) + ', Signature=') + sig))
+                expect_access = w2[:len(AKID)]
+            elif case == 'sig-in-header-gap':
+                # an empty list element (",," / ", ,") between two occurrences: still a list, the last occurrence still wins
+                dec = decoy_like(ctx, sig, 'ds', 'hex')
+                w1, w2 = last(sig, dec)
+                headers.append(('authorization', conc_bytes('AWS4-HMAC-SHA256 Credential=') + cred + conc_bytes(', SignedHeaders=' + ';'.join(signed) + ', Signature=') + w1 +
+                                conc_bytes(',, Signature=') + w2))
+            elif case == 'cred-in-header-gap':
+                dc = decoy_like(ctx, conc_bytes(AKID), 'dc', 'alnum') + conc_bytes('/' + SCOPE)
+                w1, w2 = last(cred, dc)
+                headers.append(('authorization', conc_bytes('AWS4-HMAC-SHA256 Credential=') + w1 + conc_bytes(', SignedHeaders=' + ';'.join(signed) + ', Signature=') + sig +
+                                conc_bytes(', , Credential=') + w2))
                 expect_access = w2[:len(AKID)]
             elif case == 'sig-in-header':
                 dec = decoy_like(ctx, sig, 'ds', 'hex')
@@ -390,6 +402,12 @@ def concrete_case(case, order, rnd):
         elif case == 'cred-in-header':
             w1, w2 = last(cred, 'ZZZZEXAMPLE' + '/' + SCOPE)
             headers.append(['authorization', ('AWS4-HMAC-SHA256 Credential=%s, Credential=%s, SignedHeaders=%s, Signature=%s' % (w1, w2, sh, sig)).encode().hex()])
+        elif case == 'sig-in-header-gap':
+            w1, w2 = last(sig, dsig)
+            headers.append(['authorization', ('AWS4-HMAC-SHA256 Credential=%s, SignedHeaders=%s, Signature=%s,, Signature=%s' % (cred, sh, w1, w2)).encode().hex()])
+        elif case == 'cred-in-header-gap':
+            w1, w2 = last(cred, 'ZZZZEXAMPLE' + '/' + SCOPE)
+            headers.append(['authorization', ('AWS4-HMAC-SHA256 Credential=%s, SignedHeaders=%s, Signature=%s, , Credential=%s' % (w1, sh, sig, w2)).encode().hex()])
         elif case == 'sig-in-header':
             w1, w2 = last(sig, dsig)
             headers.append(['authorization', ('AWS4-HMAC-SHA256 Credential=%s, Signature=%s, SignedHeaders=%s, Signature=%s' % (cred, w1, sh, w2)).encode().hex()])
@@ -432,7 +450,7 @@ def native_outcome(rp, j):
     return ('ok' if 'ok' in res else res.get('err', {}).get('kind', 'panic')), calls
 
 
-IDENTITY_CASES = {'fold-credential': ('access_key', 'AKIDEXAMPLE', 'ZZZZEXAMPLE'), 'cred-in-header': ('access_key', 'AKIDEXAMPLE', 'ZZZZEXAMPLE'), 'q-credential': ('access_key', 'AKIDEXAMPLE', 'ZZZZEXAMPLE'),
+IDENTITY_CASES = {'cred-in-header-gap': ('access_key', 'AKIDEXAMPLE', 'ZZZZEXAMPLE'), 'fold-credential': ('access_key', 'AKIDEXAMPLE', 'ZZZZEXAMPLE'), 'cred-in-header': ('access_key', 'AKIDEXAMPLE', 'ZZZZEXAMPLE'), 'q-credential': ('access_key', 'AKIDEXAMPLE', 'ZZZZEXAMPLE'),
                   'token-header': ('session_token', 'TOK', 'XYZ'), 'q-token': ('session_token', 'TOK', 'XYZ')}
 
 
